@@ -2,7 +2,7 @@
 
 use std::borrow::Borrow;
 use std::fmt;
-use support::elems::{Class, TKey, TVal};
+use support::elems::{Class, HKey, HVal, TKey, TVal};
 
 pub trait KeyF: PartialEq + Eq + Sized + Clone + fmt::Debug + fmt::Display + Borrow<Self::Q> + 'static {
     /// borrowed form used for lookups
@@ -233,5 +233,68 @@ impl Fam for Raw {
     type K = String;
     type V = Box<u32>;
     const NAME: &'static str = "raw";
+    const TRACKED: bool = false;
+}
+
+// ---- heap: heap-owning elements with fault ticks, no ledger (sanitizer variants of C04/C17) ----
+
+impl KeyF for HKey {
+    type Q = Class;
+    fn mk(class: u32, tag: u32) -> Self {
+        HKey::new(class, tag)
+    }
+    fn class(&self) -> u32 {
+        self.class
+    }
+    fn tag(&self) -> u32 {
+        self.tag
+    }
+    fn id(&self) -> u64 {
+        0
+    }
+    fn chk(&self, _: &'static str) -> bool {
+        self.intact()
+    }
+    fn with_q<R>(class: u32, f: impl FnOnce(&Class) -> R) -> R {
+        f(&Class(class))
+    }
+    fn dbg_render(class: u32, tag: u32) -> String {
+        format!("K{}#{}", class, tag)
+    }
+    fn disp_render(class: u32, tag: u32) -> String {
+        format!("k{}.{}", class, tag)
+    }
+}
+impl ValF for HVal {
+    fn mk(payload: u32) -> Self {
+        HVal::new(payload)
+    }
+    fn payload(&self) -> u32 {
+        self.payload
+    }
+    fn set_payload(&mut self, p: u32) {
+        self.set(p);
+    }
+    fn id(&self) -> u64 {
+        0
+    }
+    fn chk(&self, _: &'static str) -> bool {
+        self.intact()
+    }
+    fn dbg_render(payload: u32) -> String {
+        format!("V{}", payload)
+    }
+    fn disp_render(payload: u32) -> String {
+        format!("v{}", payload)
+    }
+    fn default_payload() -> u32 {
+        support::elems::DEFAULT_PAYLOAD
+    }
+}
+pub struct Heap;
+impl Fam for Heap {
+    type K = HKey;
+    type V = HVal;
+    const NAME: &'static str = "heap";
     const TRACKED: bool = false;
 }
